@@ -105,6 +105,7 @@ func main() {
 		hx.Fatal("pkg/wrap goroutines before any call: %d", base)
 	}
 	start := time.Now()
+	hung := 0
 	for _, c := range cases {
 		hx.Current(map[string]any{"n": c.N, "kind": c.Kind, "shape": c.Shape})
 		o := Obs{Case: c}
@@ -133,6 +134,14 @@ func main() {
 			}
 		}
 		out.Write(o)
+		if len(o.W.Hang) > 0 || len(o.G.Hang) > 0 {
+			// every hang costs seconds: a handful is evidence enough
+			if hung++; hung >= 3 {
+				out.Close()
+				fmt.Fprintf(os.Stderr, "wrapx: %d scripts with ops that never completed (last: %d); stopping\n", hung, c.N)
+				os.Exit(0)
+			}
+		}
 	}
 	fmt.Fprintf(os.Stderr, "wrapx: %d cases in %v\n", len(cases), time.Since(start).Round(time.Millisecond))
 }
